@@ -181,6 +181,44 @@ fn write_body_of_len(l: usize) -> Result<Vec<u8>, String> {
     }
 }
 
+/// Down-scaled schedules for the Miri interpreter.
+pub fn miri_slice(r: &mut Report, seed: u64, n: usize, shard: usize) -> usize {
+    let mut rng = Rng::derive(seed, 0x0404 + shard as u64);
+    let mut ops = 0;
+    for l in [0usize, 1, 254, 255, 256, 300] {
+        if let Ok(w) = write_body_of_len(l) {
+            run_schedule(r, &w, w.len(), Chunking::Whole, false, true, false);
+            run_schedule(r, &w, w.len(), Chunking::Cuts(vec![1, 2, 3, 4, 5]), true, true, false);
+            run_schedule(r, &w, w.len() - 1, Chunking::Whole, false, true, false);
+            ops += 3;
+        }
+    }
+    while ops < n {
+        let np = 1 + rng.below(3) as usize;
+        let mut stream = vec![];
+        for _ in 0..np {
+            let l = rng.below(6) as usize;
+            stream.extend([rng.byte(), rng.byte()]);
+            if rng.chance(1, 4) {
+                stream.extend([0xff, l as u8, 0]);
+            } else {
+                stream.push(l as u8);
+            }
+            stream.extend(rng.bytes(l));
+        }
+        let len = stream.len();
+        let k = 1 + rng.below(4) as usize;
+        let mut cuts: Vec<usize> = (0..k).map(|_| 1 + rng.below(len as u64 - 1) as usize).collect();
+        cuts.sort();
+        cuts.dedup();
+        let eof_at = rng.below(len as u64 + 1) as usize;
+        run_schedule(r, &stream, eof_at, Chunking::Cuts(cuts), rng.chance(1, 2), true, true);
+        run_schedule(r, &stream, len, Chunking::Bytewise, true, true, true);
+        ops += 2;
+    }
+    ops
+}
+
 pub fn run(ctx: &Ctx) -> i32 {
     let mut report = ctx.report("C04", "exploration");
     report.rule = "(i) header agreement exhaustively for body lengths 0..65535: write_packet of a real command with exactly L body bytes, header compared with the independent formula, then read back through read_packet whole / with the header delivered byte-wise / split at every header offset; (ii) every sequence of 1-4 packets of total length <= 15 (quick: <= 13) incl. non-shortest FF headers: all 2^(n-1) partitions into read results x every end-of-stream position, with and without a Pending wake-up between chunks; (iii) sequences of up to 8 packets with bodies to 65535 (254/255/256 included): byte-wise, every single split point, random partitions, sampled end-of-stream positions. Checked after every return: the k-th packet's bytes, the stream cursor == sum of packet lengths, error (not a packet, not parking) when the stream ends inside a packet. Non-trivial = non-empty stream; (i)/(ii) are duplicate-free enumerations, (iii) hashed.".into();
@@ -324,5 +362,8 @@ pub fn run(ctx: &Ctx) -> i32 {
             }
         }
     });
+    if !ctx.quick() && std::env::var("VERIF_NO_MIRI").is_err() {
+        crate::c02::miri_tier(&mut report, "c04", 16, 60, ctx.seed);
+    }
     report.finish()
 }
